@@ -131,6 +131,16 @@ _MOD = None
 _RUN = None
 
 
+def _under_test(filename):
+    """is this source file part of the annet tree the check is looking at?"""
+    try:
+        import annet
+        root = os.path.dirname(os.path.abspath(annet.__file__))
+    except Exception:  # noqa
+        return False
+    return os.path.abspath(filename).startswith(root + os.sep)
+
+
 def _worker(arg):
     idx, block = arg
     deadline, tier, seed = _RUN
@@ -141,9 +151,28 @@ def _worker(arg):
         return idx, ctx.result()
     try:
         _MOD.run_block(block, ctx)
-    except Exception:
-        ctx.violation({"kind": "harness-error", "where": traceback.format_exc().strip().splitlines()[-1][:200]},
-                      {"block": block}, traceback.format_exc())
+    except Exception as e:  # noqa
+        # an exception nobody in the check expected. Where was it raised?  Inside the tree under test: the code crashed where
+        # the check relies on it to work - reported.  Inside /verif itself (a call that no longer fits a private function's
+        # parameter list, a private attribute that is gone): the harness does not fit this tree - the block is NOT DECIDED
+        # (noted, run marked incomplete), never an alarm.
+        tb = e.__traceback__
+        last = None
+        while tb is not None:
+            last = tb.tb_frame.f_code.co_filename
+            tb = tb.tb_next
+        if last and _under_test(last):
+            ctx.violation({"kind": "harness-error", "where": traceback.format_exc().strip().splitlines()[-1][:200]},
+                          {"block": block}, traceback.format_exc())
+        else:
+            ctx.capped = True
+            ctx.notes.append("block %d not decided - the harness does not fit this tree: %s (raised in %s)"
+                             % (idx, traceback.format_exc().strip().splitlines()[-1][:200], last))
+    try:
+        from mc import env as _env
+        ctx.notes.extend(n for n in _env.NOTES[:2] if n not in ctx.notes)
+    except Exception:  # noqa
+        pass
     res = ctx.result()
     # every recorded case remembers the block that produced it: a violation that depends on what the block ran before
     # (a compiled object or a class living longer than one case) is replayed by re-running the block
